@@ -1046,6 +1046,8 @@ def fact_reads_memory(f):
 def mk_deref(e):
     if e[0] == 'ref':
         return e[1]
+    if e[0] == 'aggr':
+        return e   # `*env` where env was substituted by the closure value itself
     return ('deref', e)
 
 
@@ -1933,6 +1935,9 @@ def canon(e, keep_casts=True, _d=0, labels=None):
         if e[1] == 'closure':
             return 'closure:%s' % e[2].split('::')[-1]
         nm = '::'.join(e[2].split('::')[-2:]) if e[1] == 'adt' else e[2]
+        if e[1] == 'adt' and e[2].endswith('ops::RangeTo::RangeTo') and len(e[3]) == 1:
+            # ..n is 0..n
+            return 'Range::Range{start: 0, end: %s}' % canon(e[3][0][1], keep_casts, d)
         return '%s{%s}' % (nm, ', '.join('%s: %s' % (n2, canon(v, keep_casts, d)) for n2, v in e[3]))
     if k == 'phi':
         # accumulator idiom: phi(0, loopvar + X) is a sum over the enclosing loop
@@ -2907,7 +2912,14 @@ def _expand_one(raw, raw_by_path, bi, kind, used):
     chain = []
     src = args[0]['place']['l']
     dead_calls = []
-    while src in cdefs:
+    for _guard in range(12):
+        if src not in cdefs:
+            # the adaptor value may have been moved into another local first
+            st0 = _single_assign_def(raw, src)
+            if st0 is not None and st0['rv']['k'] == 'use' and _plain_local(st0['rv']['op']) and st0['rv']['op'].get('k') == 'move':
+                src = st0['rv']['op']['place']['l']
+                continue
+            break
         cbi, ct = cdefs[src]
         ak = _ITER_ADAPTORS.get(_fn_path(ct))
         if ak is None or len(ct['args']) != 2 or not _plain_local(ct['args'][0]) or not _plain_local(ct['args'][1]) \
@@ -3152,6 +3164,78 @@ def _expand_direct_call(raw, raw_by_path, bi, used):
     return True
 
 
+def _emit_call(B, raw_by_path, callee, arg_ops, dest, target, span, used):
+    """call of a callable value: a closure created in this body (spliced) or a function item (direct call)"""
+    if callee[0] == 'closure':
+        if callee[2] not in raw_by_path:
+            return None
+        used.add(callee[2])
+        return _emit_closure_call(B, raw_by_path, callee[1], callee[2], arg_ops, dest, target, span)
+    return B.block([], {'k': 'call', 'func': callee[1], 'args': arg_ops, 'dest': dest, 'target': target, 'span': span})
+
+
+_DATA_COMBINATORS = {'std::result::Result::<T, E>::map_err': 'map_err', 'std::result::Result::<T, E>::ok': 'ok',
+                     'std::result::Result::<T, E>::map': 'rmap', 'std::option::Option::<T>::map': 'omap'}
+
+
+def _expand_data_combinator(raw, raw_by_path, bi, kind, used):
+    """res.map_err(f) == match res { Ok(x) => Ok(x), Err(e) => Err(f(e)) };  res.ok() == match res { Ok(x) => Some(x), Err(_) => None };
+    res.map(f) / opt.map(f) with f a function item (the closure case is handled by _expand_one)"""
+    blk = raw['blocks'][bi]
+    t = blk['term']
+    span = t.get('span', {})
+    B = _Builder(raw)
+    args, dest, target = t['args'], t['dest'], t.get('target')
+    if target is None or not args or not _plain_local(args[0]):
+        return False
+    callee = None
+    if kind != 'ok':
+        if len(args) != 2:
+            return False
+        callee = _callee_value(raw, args[1])
+        if callee is None:
+            return False
+    o = args[0]['place']['l']
+    oty = args[0]['place'].get('ty', '')
+    is_opt = kind == 'omap'
+    adt_in = 'std::option::Option' if is_opt else 'std::result::Result'
+    variants = [[0, 'None'], [1, 'Some']] if is_opt else [[0, 'Ok'], [1, 'Err']]
+    good_in = 'Some' if is_opt else 'Ok'
+    pj = lambda var: [{'k': 'downcast', 'variant': var}, {'k': 'field', 'name': '0', 'idx': 0, 'ty': '', 'of': adt_in}]
+    go = {'k': 'goto', 'target': target, 'span': span}
+    aggr = lambda adt, var, ops: {'k': 'aggr', 'akind': 'adt', 'adt': adt, 'adt_full': dest.get('ty', ''), 'variant': var, 'fields': ['0'] if ops else [], 'ops': ops}
+    d = B.local('isize')
+    x = B.local('')
+    y = B.local('')
+    if kind in ('rmap', 'omap'):
+        adt_out = adt_in
+        wrap = B.block([B.assign(dest, aggr(adt_out, good_in, [B.mv(y)]), span)], dict(go))
+        e = _emit_call(B, raw_by_path, callee, [B.mv(x)], B.place(y), wrap, span, used)
+        if e is None:
+            return False
+        good_b = B.block([B.assign(B.place(x), {'k': 'use', 'op': B.mv(o, '', pj(good_in))}, span)], {'k': 'goto', 'target': e, 'span': span})
+        if is_opt:
+            bad_b = B.block([B.assign(dest, aggr(adt_out, 'None', []), span)], dict(go))
+        else:
+            bad_b = B.block([B.assign(B.place(x), {'k': 'use', 'op': B.mv(o, '', pj('Err'))}, span), B.assign(dest, aggr(adt_out, 'Err', [B.mv(x)]), span)], dict(go))
+    elif kind == 'map_err':
+        wrap = B.block([B.assign(dest, aggr('std::result::Result', 'Err', [B.mv(y)]), span)], dict(go))
+        e = _emit_call(B, raw_by_path, callee, [B.mv(x)], B.place(y), wrap, span, used)
+        if e is None:
+            return False
+        bad_b = B.block([B.assign(B.place(x), {'k': 'use', 'op': B.mv(o, '', pj('Err'))}, span)], {'k': 'goto', 'target': e, 'span': span})
+        v = B.local('')
+        good_b = B.block([B.assign(B.place(v), {'k': 'use', 'op': B.mv(o, '', pj('Ok'))}, span), B.assign(dest, aggr('std::result::Result', 'Ok', [B.mv(v)]), span)], dict(go))
+    else:  # ok
+        good_b = B.block([B.assign(B.place(x), {'k': 'use', 'op': B.mv(o, '', pj('Ok'))}, span), B.assign(dest, aggr('std::option::Option', 'Some', [B.mv(x)]), span)], dict(go))
+        bad_b = B.block([B.assign(dest, aggr('std::option::Option', 'None', []), span)], dict(go))
+    unr = B.block([], {'k': 'unreachable', 'span': span})
+    blk['stmts'].append(B.assign(B.place(d, 'isize'), {'k': 'discr', 'place': B.place(o, oty), 'variants': variants}, span))
+    arms = [[0, bad_b], [1, good_b]] if is_opt else [[0, good_b], [1, bad_b]]
+    blk['term'] = {'k': 'switch', 'discr': B.mv(d, 'isize'), 'arms': arms, 'otherwise': unr, 'discr_ty': 'isize', 'span': span}
+    return True
+
+
 def expand_combinators(raw_by_path):
     """returns (new_raw_by_path, closure paths that were spliced into their creators)"""
     out = {}
@@ -3167,6 +3251,12 @@ def expand_combinators(raw_by_path):
                 fp = _fn_path(t)
                 kind = _ITER_CONSUMERS.get(fp) or _OPT_COMBINATORS.get(fp) or ('and_modify' if fp and _ENTRY_MODIFY.match(fp) else None) or \
                     ('transpose' if fp == _TRANSPOSE else None) or ('direct' if fp and _FN_TRAIT_CALL.match(fp) else None)
+                if fp in _DATA_COMBINATORS:
+                    # map/map_err with any callable, ok(): closures in map() keep going through _expand_one first
+                    a_last = t['args'][-1] if t['args'] else None
+                    is_clo = a_last is not None and _plain_local(a_last) and a_last['place']['l'] in _closure_defs(cur, raw_by_path)
+                    if not (kind and is_clo):
+                        kind = 'data'
                 if kind:
                     hit = (bi, kind)
                     if cur is raw:
@@ -3179,6 +3269,8 @@ def expand_combinators(raw_by_path):
                             ok = _expand_transpose(cur, bi)
                         elif kind == 'direct':
                             ok = _expand_direct_call(cur, raw_by_path, bi, used)
+                        elif kind == 'data':
+                            ok = _expand_data_combinator(cur, raw_by_path, bi, _DATA_COMBINATORS[fp], used)
                         else:
                             ok = _expand_one(cur, raw_by_path, bi, kind, used)
                     except (KeyError, IndexError):
